@@ -1495,6 +1495,14 @@ struct TupleDriver : DriverBase<TupleDriver<A, B, C>> {
                 mismatch = true;
                 ctx.violation(prop, std::string(prefix) + ":apply", "apply did not pass the tuple's own elements in order");
             }
+            // a callable that returns a reference: apply hands that very reference back (decltype(auto) all the way)
+            {
+                auto&& picked = etl::apply([](A const& x, B const&, C const&) -> A const& { return x; }, ct);
+                if (&picked != &get<0>(ct)) {
+                    mismatch = true;
+                    ctx.violation(prop, std::string(prefix) + ":apply-reference", "apply returned a copy where the callable returns a reference");
+                }
+            }
             auto ft = etl::make_from_tuple<FromTuple>(ct);
             if (ft.a != std::get<0>(model[s]) || ft.b != std::get<1>(model[s]) || ft.c != std::get<2>(model[s])) {
                 mismatch = true;
